@@ -6,6 +6,7 @@ use serde_json::json;
 use std::collections::BTreeMap;
 use vh_common::*;
 use vh_hist::{apply_op, ctx_of, gen_op, ops_json, Op};
+use crate::cover;
 
 pub struct WbStats { pub nontrivial: u64, pub samples: Vec<String>, pub meta: serde_json::Value }
 
@@ -126,7 +127,7 @@ pub fn check_model(m: &Model) -> Result<usize, Vec<(String, String)>> {
 pub fn workbook_part(a: &Args, or: &mut Oracle) -> WbStats {
     let explore = a.extra.iter().any(|x| x == "explore");
     let mut rng = Rng::new(a.seed ^ 0xC24);
-    let (nh, len) = if a.thorough { (1500u64, 40u64) } else { (120, 30) };
+    let (nh, len) = if a.thorough { (1200u64, 40u64) } else { (50, 25) };
     let mut trips = 0u64; let mut lines = 0u64; let mut stopped = 0u64;
     let mut hist: BTreeMap<String, (u64, String)> = BTreeMap::new();
     for h in 0..nh {
@@ -167,10 +168,44 @@ pub fn workbook_part(a: &Args, or: &mut Oracle) -> WbStats {
             }
         }
     }
+    // ---- coverage workbooks
+    let mut books = cover::style_books();
+    books.extend(cover::layout_books());
+    books.extend(cover::name_link_books());
+    books.extend(cover::cf_books());
+    books.extend(cover::value_books());
+    books.extend(cover::string_books(&mut rng, a.thorough));
+    let nbooks = books.len();
+    let mut book_classes: BTreeMap<String, Vec<String>> = BTreeMap::new();
+    for (label, m) in &books {
+        trips += 1; or.checked += 1;
+        match check_model(m) {
+            Ok(n) => lines += n as u64,
+            Err(cl) => {
+                let mut seen = std::collections::BTreeSet::new();
+                for (c, detail) in &cl {
+                    book_classes.entry(c.clone()).or_default().push(label.clone());
+                    if !seen.insert(c.clone()) { continue; }
+                    let e = hist.entry(c.clone()).or_insert((0, detail.clone()));
+                    e.0 += 1;
+                    or.fail(c, json!({"workbook": label}), detail.clone());
+                }
+                if explore {
+                    println!("---- book {label}: {} differences", cl.len());
+                    let mut shown: BTreeMap<String, u32> = BTreeMap::new();
+                    for (c, detail) in &cl {
+                        let k = shown.entry(c.clone()).or_insert(0); *k += 1;
+                        if *k <= 3 { let d: String = detail.lines().map(|l| { let l2 = if c.contains("style") || c.contains("unclassified") { l.to_string() } else { l.split(" {fmt=").next().unwrap_or("").to_string() }; l2.chars().take(900).collect::<String>() }).collect::<Vec<_>>().join("\n     "); println!("   [{c}]\n     {d}"); }
+                    }
+                    for (c, k) in shown { println!("   total {c}: {k}"); }
+                }
+            }
+        }
+    }
     if explore {
         for (c, (n, d)) in &hist { println!("== {c} x{n}\n{d}\n"); }
         println!("histories {nh} trips {trips} stopped {stopped}");
     }
     WbStats { nontrivial: trips, samples: vec![format!("{nh} histories, {trips} workbooks exported and re-imported, {lines} snapshot lines compared, {stopped} histories stopped at a difference")],
-        meta: json!({"histories": nh, "round_trips": trips, "lines_compared": lines, "histories_stopped": stopped}) }
+        meta: json!({"coverage_workbooks": nbooks, "classes_in_coverage_workbooks": book_classes.iter().map(|(k, v)| (k.clone(), v.len())).collect::<BTreeMap<_, _>>(), "histories": nh, "round_trips": trips, "lines_compared": lines, "histories_stopped": stopped}) }
 }
